@@ -1,6 +1,8 @@
 package hashbidimap
 
 import (
+	vl "github.com/emirpasic/gods/v2/zzvlib"
+	"encoding/json"
 	"github.com/emirpasic/gods/v2/containers"
 	"github.com/emirpasic/gods/v2/maps"
 	"github.com/emirpasic/gods/v2/maps/hashmap"
@@ -32,4 +34,30 @@ func VHSnap() {
 	ks, xs := maps.VPairs(true)
 	c := VGMapOf(ks, xs)
 	containers.VSnapStep(containers.VSnap{C: c, Keys: c.Keys, Mutate: []func(){c.Clear, func() { c.Put(v.Int("mk"), v.Int("mv")) }, func() { c.Remove(v.Int("mk")) }}, Hash: true})
+}
+
+var _ = vl.Less
+
+func vJSON(c *Map[int, int]) containers.VJSON {
+	return containers.VJSON{C: c, ToJSON: c.ToJSON, FromJSON: c.FromJSON,
+		Marshal: func() ([]byte, error) { return json.Marshal(c) },
+		Inv:     func() { VInv(c) },
+		Step:    func() { k, x := v.Int("sk"), v.Int("sx"); c.Put(k, x); y, ok := c.Get(k); v.Assert(v.And(ok, y == x), "C12:put-after-load") },
+		Fresh:   func() containers.VJSON { return vJSON(New[int, int]()) },
+		Object: true, Hash: true, Bidi: true, Keys: c.Keys, Get: c.Get, Ref: func(ks, xs []int) ([]int, []int) { return vl.LastPerKey(ks, xs) },
+	}
+}
+
+// VHJSONRound: ToJSON / json.Marshal / FromJSON round trip from an arbitrary state (C11).
+func VHJSONRound() {
+	ks, xs := maps.VPairs(true)
+	c := VGMapOf(ks, xs)
+	containers.VJSONRound(vJSON(c))
+}
+
+// VHJSONLoad: FromJSON of an arbitrary document into an arbitrary prior state (C12, C17).
+func VHJSONLoad() {
+	ks, xs := maps.VPairs(true)
+	c := VGMapOf(ks, xs)
+	containers.VJSONLoad(vJSON(c))
 }
